@@ -2,3 +2,7 @@ check("C02", "exhaustive enumeration of condition strings + Hypothesis grammar; 
       "Every condition string with <= 3 (quick) / 4 (thorough) operators is enumerated and compared by full truth table with an independent parser; larger expressions are sampled. Exhaustive on the enumerated sub-domain, sampling beyond it.",
       "Trusted: vf/ref/conditions.py as the Sigma grammar (self-checked each run); selectors matching nothing are outside the domain.",
       "DESIGN.md section 3, C02")
+check("C18", "exhaustive prefix-length sweep + Hypothesis addresses; integer-range set equality (IPv4) and per-address glob matching (IPv6)",
+      "All 33 IPv4 and 129 IPv6 prefix lengths over boundary and drawn base addresses. IPv4 exactness is decided on integer ranges computed from the pattern text by a glob automaton (not by sampling addresses); IPv6 completeness on all hosts for small host parts and on boundary/compression-critical hosts otherwise.",
+      "Trusted: python ipaddress for membership and canonical IPv6 text; glob semantics '*' any run.",
+      "DESIGN.md section 3, C18")
